@@ -338,7 +338,12 @@ func runOrd3(m *Model, r *RuleResult) {
 						continue
 					}
 					ci := a.(ssa.CallInstruction)
-					if _, o := orderedAB(ci.Common().StaticCallee(), depth+1); !o {
+					if ci.Common().StaticCallee() == nil {
+						// one dynamic call site serves both options: only one of the two functions is applied to a node
+						ok = false
+						continue
+					}
+					if f2, o := orderedAB(ci.Common().StaticCallee(), depth+1); !o || !f2 {
 						ok = false
 					}
 					continue
@@ -717,7 +722,7 @@ func degreeGuardedLayerStore(f *ssa.Function) bool {
 		}
 		for _, d := range transitiveControlDeps(st.Block()) {
 			bo, ok := d.If.Cond.(*ssa.BinOp)
-			if !ok || bo.Op != token.EQL || d.Branch != 0 {
+			if !ok || !((bo.Op == token.EQL && d.Branch == 0) || (bo.Op == token.NEQ && d.Branch == 1)) {
 				continue
 			}
 			cx, ok1 := bo.X.(*ssa.Call)
